@@ -97,7 +97,7 @@ theorem cmd_end {l : Local} {Tp : Tape} (hbase : topState base = b) (hB : BaseOK
 
 theorem POK.afterNL {l : Local} (h : POK l) (hc : histOK l.currentToken = true) (t : Token) :
     POK (afterNL l t) :=
-  ⟨h.wok.afterNL t, h.cs, hc, h.dp⟩
+  ⟨h.wok.afterNL t, h.cs, hc, h.dp, ⟨h.ps.cp, h.ps.rl, h.ps.ca⟩⟩
 
 /-- the tokenizer delivers the terminator `term` after the last word of the command -/
 def FetchTerm (L : Str) (adn : Bool) (term : Token) (iE iT : Nat) : Prop :=
